@@ -10,6 +10,7 @@
 -/
 import EV.Proofs.PsetMergeTop
 import EV.Proofs.PsetMergeId
+import EV.Proofs.PsetSourceTie
 namespace EV.Props.C14
 open EV EV.Codec EV.Proofs.PsetId
 
@@ -312,5 +313,28 @@ example :
     let b : Pset := { global := { inputCount := 1 }, inputs := [ib] }
     a.mergeCore b = .ok { global := { inputCount := 1, txModifiable := some 0 }, inputs := [im] } ∧
     a.mergeCore b = b.mergeCore a := by decide
+
+/-! ### the model's field inventory is the source's (re-extracted from `src/pset/map/*.rs` on every run)
+
+`EV.Gen.pset*Fields` are the struct definitions, `EV.Gen.pset*MergeOps` the statements found in the bodies
+of `merge`; `EV.PsetFieldTable` is the table the model (structures, `merge`, `merge_keeps_all` …) is
+generated from. A field added to `pset::Input`/`Output`, or one that `merge` stops handling, breaks these. -/
+open EV.Proofs.PsetSourceTie in
+theorem source_input_fields_match : namesKinds PsetFieldTable.input = Gen.psetInputFields := input_fields_match
+open EV.Proofs.PsetSourceTie in
+theorem source_output_fields_match : namesKinds PsetFieldTable.output = Gen.psetOutputFields := output_fields_match
+open EV.Proofs.PsetSourceTie in
+theorem source_input_merge_ops_match : sameSet (mergeOps PsetFieldTable.input) Gen.psetInputMergeOps = true := input_merge_ops_match
+open EV.Proofs.PsetSourceTie in
+theorem source_output_merge_ops_match : sameSet (mergeOps PsetFieldTable.output) Gen.psetOutputMergeOps = true := output_merge_ops_match
+open EV.Proofs.PsetSourceTie in
+/-- every `Option` / map field of the source structs is handled by the source `merge` -/
+theorem source_merge_covers_every_field :
+    covered Gen.psetInputFields Gen.psetInputMergeOps = true ∧ covered Gen.psetOutputFields Gen.psetOutputMergeOps = true :=
+  ⟨input_merge_covers_source, output_merge_covers_source⟩
+open EV.Proofs.PsetSourceTie in
+theorem source_global_inventory :
+    Gen.psetGlobalFields.map (·.1) = ["tx_data", "version", "xpub", "scalars", "elements_tx_modifiable_flag", "proprietary", "unknown"] ∧
+    Gen.psetTxDataFields.map (·.1) = ["version", "fallback_locktime", "input_count", "output_count", "tx_modifiable"] := global_fields_inventory
 
 end EV.Props.C14
